@@ -188,6 +188,17 @@ def estimator_part(ctx, fails):
                 both(fm, dfw, repw, 'IPTW.missing_model.%s' % ('stabilized' if stab else 'unstabilized'),
                      'IPTW(stabilized=%s) with missing_model() and missingness related to the weights' % stab, fails, ctx, payw)
 
+                def fm2(frame, w, stab=stab):      # a marginal structural model that is not saturated in treatment: factors of the
+                    ip = IPTW(frame, 'A', 'Y', weights=w)          # weights that depend on A alone no longer cancel
+                    ip.treatment_model(rhs, stabilized=stab, print_results=False)
+                    ip.missing_model('A + ' + rhs, stabilized=stab, print_results=False)
+                    ip.marginal_structural_model('A + ' + meta['covs'][0])
+                    refit(ip, continuous_distribution=dist) if dist else refit(ip)
+                    return list(ip.odds_ratio['OR']) if otype == 'binary' else list(ip.average_treatment_effect['ATE'])
+                both(fm2, dfw, repw, 'IPTW.missing_model.msm-with-covariate.%s' % ('stabilized' if stab else 'unstabilized'),
+                     'IPTW(stabilized=%s) with missing_model(), MSM A + %s, missingness related to the weights' % (stab, meta['covs'][0]), fails, ctx, payw,
+                     gee_may_fail=(otype == 'binary'))
+
             def fa(frame, w):
                 ai = AIPTW(frame, 'A', 'Y', weights=w)
                 ai.exposure_model(rhs, print_results=False)
